@@ -1,6 +1,7 @@
 """C04 Hostile input never panics (DESIGN §5 C04): R-panic inventory + tactics + reviewed baseline, R-rec recursion inventory."""
 import os, re, collections
 import callgraph
+import core
 from rules import panics
 from rules.common import single_defs, site, call_blocks, direct_cmp_switches, resolve_value
 from core import guard_switches, must_pass, fmt_path, has_origin
@@ -58,6 +59,7 @@ def run(ctx):
     r_loop(ctx, P)
     r_rec(ctx, P)
     focus(ctx, P)
+    poisoned_state_returns_error(ctx, P)
 
 
 def r_panic(ctx, P, only=None, floors=(1800, 1200, 150)):
@@ -208,3 +210,147 @@ def resolved_components(f):
         if len(comp) > 1 or comp[0] in edges.get(comp[0], ()):
             out.append(sorted(comp))
     return sorted(out)
+
+
+def poison_variants(ctx):
+    """(enum path, variant) pairs that are installed as a placeholder while the real state is moved out:
+    `mem::replace(&mut state, Enum::Unit)` / `replace_with*(.., || Enum::Unit, ..)`."""
+    out = {}
+    for p, r in ctx.f.bodies.items():
+        if r.get('derived'):
+            continue
+        b = core.B(r)
+        for i, t in b.calls(r'mem::replace$|mem::take$'):
+            if len(t['args']) < 2:
+                continue
+            for x in b.operand_origins(t['args'][1]):
+                m = re.match(r'agg:([\w:<>\', ]+)::(\w+)$', x)
+                if m:
+                    out.setdefault((m.group(1), m.group(2)), []).append(p)
+        if r['kind'] == 'Closure' and re.search(r'replace_with', ' '.join(t['f'].get('fn', '') for _, t in core.B(ctx.f.bodies.get(p.rsplit('::{closure', 1)[0], r)).calls())):
+            for i, k, s in b.stmts(lambda s: s['d']['l'] == 0 and not s['d']['pr'] and s['r']['k'] == 'agg' and s['r'].get('ak') == 'adt' and not s['r']['o']):
+                out.setdefault((s['r']['adt'], s['r']['v']), []).append(p)
+    # keep unit variants of crate enums only
+    keep = {}
+    for (adt, v), ps in out.items():
+        a = ctx.f.adts.get(adt)
+        if a and any(x['n'] == v and not x['fields'] for x in a['vars']) and len(a['vars']) > 1:
+            keep[(adt, v)] = sorted(set(ps))
+    return keep
+
+
+def poisoned_state_returns_error(ctx, P):
+    """A reader that fails while its state is moved out stays in the placeholder ("poisoned") state.  A function that can report an
+    error (it returns a Result) must do so when it finds the placeholder: an explicit panic there turns `the first read failed on
+    hostile input, the caller read again` into a crash.  (Accessors that return references cannot report an error and are not
+    covered; their panics are reviewed baseline entries.)"""
+    from rules.common import arm_context
+    poison_full = poison_variants(ctx)
+    poison = {(a.split('::')[-1], v): ps for (a, v), ps in poison_full.items()}   # arm_context reports the enum's short name
+    ctx.floor(P + ':poison:floor:variants', 'placeholder variants installed while a state is moved out', len(poison), 8)
+    RES = r'(std::result::Result|std::io::Result|core::result::Result)<'
+    PANIC = r'panicking::panic_fmt$|panicking::panic$|panicking::panic_explicit$|panicking::panic_display$'
+    # Result-returning functions that report the placeholder as an error (and do not panic on it): a `self.g()?` that dominates a
+    # later placeholder arm makes that arm unreachable
+    reports = set()
+    for p, r in ctx.f.bodies.items():
+        if r.get('derived') or '::tests::' in p or not re.match(RES, r['locals'][0]['ty']):
+            continue
+        b = core.B(r)
+        dom = b.dominators()
+        errs_ = [i for i, k, s in b.constructs(r'std::result::Result$', 'Err')] + [i for i, t in b.calls(r'io::Error::other$|io::Error::new$')]
+        if any(len(vs) == 1 and (a, vs[0]) in poison for i in errs_ for a, vs in arm_context(b, i, dom)) and \
+           not any(len(vs) == 1 and (a, vs[0]) in poison for i, t in b.calls(PANIC) for a, vs in arm_context(b, i, dom)):
+            reports.add(p)
+    n = 0
+    for p, r in sorted(ctx.f.bodies.items()):
+        if r.get('derived') or '::tests::' in p:
+            continue
+        rty = r['locals'][0]['ty']
+        b = None
+        if not re.match(r'(std::result::Result|std::io::Result|core::result::Result)<', rty):
+            continue
+        b = core.B(r)
+        ps = [i for i, t in b.calls(r'panicking::panic_fmt$|panicking::panic$|panicking::panic_explicit$|panicking::panic_display$')]
+        if not ps:
+            continue
+        dom = b.dominators()
+        bad = []
+        checked = [j for j, t in b.calls() if (t['f'].get('res') in reports or t['f'].get('fn') in reports) and t['args'] and has_origin(b.operand_origins(t['args'][0]), r'param:1$')]
+        for i in ps:
+            if any(j in dom.get(i, ()) for j in checked):
+                continue   # a dominating `self.<reports placeholder>()?` has already returned the error
+            for a, vs in arm_context(b, i, dom):
+                if len(vs) == 1 and (a, vs[0]) in poison:
+                    bad.append((i, a.split('::')[-1], vs[0]))
+        if not bad:
+            continue
+        ctx.functions.add(p)
+        for k, (i, a, v) in enumerate(bad):
+            n += 1
+            ctx.violation('%s:poison:returns-error:%s:%s::%s#%d' % (P, p, a, v, k + 1), 'R-sib',
+                          'a Result-returning function reports the placeholder state %s::%s as an error instead of panicking' % (a, v),
+                          function=p, site=site(b, i), installed_by=poison[(a, v)][:3],
+                          missing='explicit panic in the %s::%s arm of a function that returns %s' % (a, v, rty.split('<')[0]))
+    # one level down: a Result-returning function that calls, outside any arm that excludes the placeholder, a helper which panics
+    # on the placeholder (the helper cannot report an error, its caller can)
+    panics_on = {}
+    for p, r in ctx.f.bodies.items():
+        if r.get('derived') or '::tests::' in p:
+            continue
+        b = core.B(r)
+        ps = [i for i, t in b.calls(r'panicking::panic_fmt$|panicking::panic$|panicking::panic_explicit$|panicking::panic_display$')]
+        if not ps:
+            continue
+        dom = b.dominators()
+        for i in ps:
+            for a, vs in arm_context(b, i, dom):
+                if len(vs) == 1 and (a, vs[0]) in poison:
+                    panics_on[p] = (a, vs[0])
+    for p, r in sorted(ctx.f.bodies.items()):
+        if r.get('derived') or '::tests::' in p or not re.match(r'(std::result::Result|std::io::Result)<', r['locals'][0]['ty']):
+            continue
+        b = core.B(r)
+        dom = None
+        k = 0
+        for i, t in b.calls():
+            g = t['f'].get('res') or t['f'].get('fn')
+            g = g if g in panics_on else t['f'].get('fn')
+            if g not in panics_on or g == p:
+                continue
+            if re.match(r'(std::result::Result|std::io::Result)<', ctx.f.bodies[g]['locals'][0]['ty']):
+                continue   # reported at the callee itself
+            a, v = panics_on[g]
+            # same object: the receiver is this function's own self
+            if not t['args'] or not has_origin(b.operand_origins(t['args'][0]), r'param:1$'):
+                continue
+            if not re.search(r'[<:]%s\b' % re.escape(a), r['locals'][1]['ty']) and a not in p:
+                continue
+            dom = dom or b.dominators()
+            if any(aa == a and v not in vs for aa, vs in arm_context(b, i, dom)):
+                continue
+            k += 1
+            n += 1
+            ctx.functions.add(p)
+            ctx.violation('%s:poison:returns-error:%s:via:%s#%d' % (P, p, g.split('::')[-1], k), 'R-sib',
+                          'a Result-returning function does not call, on a possibly poisoned state, a helper that panics on the placeholder %s::%s' % (a, v),
+                          function=p, site=site(b, i), callee=g, missing='%s panics on %s::%s and is called before the placeholder is checked' % (g.split('::')[-1], a, v))
+    # the functions that already handle the placeholder with an error are the sibling reference
+    good = 0
+    for p, r in sorted(ctx.f.bodies.items()):
+        if r.get('derived') or '::tests::' in p or not re.match(r'(std::result::Result|std::io::Result)<', r['locals'][0]['ty']):
+            continue
+        b = core.B(r)
+        dom = None
+        for i, k, s in b.constructs(r'std::result::Result$', 'Err'):
+            dom = dom or b.dominators()
+            if any(len(vs) == 1 and (a, vs[0]) in poison for a, vs in arm_context(b, i, dom)):
+                good += 1
+                break
+        else:
+            for i, t in b.calls(r'io::Error::other$|io::Error::new$'):
+                dom = dom or b.dominators()
+                if any(len(vs) == 1 and (a, vs[0]) in poison for a, vs in arm_context(b, i, dom)):
+                    good += 1
+                    break
+    ctx.check(P + ':poison:reference', 'R-sib', 'functions that report a placeholder state as an error (sibling reference for the rule)', good >= 3, count=good, panicking_sites=n)
